@@ -38,7 +38,7 @@ func f(x byte) byte { return g(x) + 1 }`, "g,f", true, "((g x) + 1#8)"},
 	{"return in non-tail if", `func f(a int) int { b := 0; if a > 0 { if a > 5 { return 7 }; b = 1 }; return b }`, "f", true, "Go.Flow.bind (if (BitVec.slt 0#64 a) then"},
 	{"return in if-else", `func f(a int) int { if a > 0 { return 1 } else { a = 2 }; return a }`, "f", true, "Go.Flow.run a) (fun (a : BitVec 64) =>"},
 	{"goto", `func f(a int) int { goto L; L: return a }`, "f", false, "unsupported"},
-	{"break", `func f(xs []byte) int { s := 0; for _, v := range xs { s += int(v); break }; return s }`, "f", false, "unsupported statement"},
+	{"continue", `func f(xs []byte) int { s := 0; for _, v := range xs { s += int(v); continue }; return s }`, "f", false, "unsupported statement"},
 	// three-clause loops
 	{"three-clause for", `func f(n int) int { s := 0; for i := 0; i < n; i++ { s += i }; return s }`, "f", true, "(s + i)) s (Go.forUp true false 0#64 n 1)"},
 	{"three-clause for, uint", `func f(a, n uint) uint { var s uint; for i := 10 - a; i < n; i++ { s += i }; return s }`, "f", true, "(Go.forUp false false (10#64 - a) n 1)"},
@@ -141,7 +141,11 @@ func f() int { s := 0; for i := range tab { s += tab[i] }; return s }`, "f", fal
 func g() []int { return tab }
 func f() int { s := 0; for i := range tab { s += tab[i] }; return s }`, "f", false, "may be modified or aliased"},
 	{"shadowing", `func f(a int) int { if a > 0 { a := 2; a++ }; return a }`, "f", false, "shadowing is not supported"},
-	{"division", `func f(a int) int { return a / 3 }`, "f", false, "unsupported operator"},
+	{"division by a constant", `func f(a int) int { return (a*8 + 4) / 5 }`, "f", true, "(BitVec.sdiv ((a * 8#64) + 4#64) 5#64)"},
+	{"division by a constant, uint", `func f(a uint, b byte) uint { return a/3 + uint(b%7) }`, "f", true, "((a / 3#64) + (BitVec.setWidth 64 (b % 7#8)))"},
+	{"remainder, int", `func f(a int) int { return a % 10 }`, "f", true, "(BitVec.srem a 10#64)"},
+	{"division by a variable", `func f(a, b int) int { return a / b }`, "f", false, "non-constant or zero divisor"},
+	{"remainder by zero", `func f(a uint) uint { const z = 0; return a % (z + 0) }`, "f", false, "invalid operation"},
 	{"int32", `func f(a int32) int32 { return a }`, "f", false, "outside the translated subset"},
 	{"range over string", `func f(s string) int { n := 0; for range s { n++ }; return n }`, "f", false, "range over string"},
 	{"range by value over assigned slice", `func f(x byte) int { r := []byte{x}; s := 0; for _, v := range r { r = append(r, v); s += int(v) }; return s }`, "f", false,
@@ -149,7 +153,103 @@ func f() int { s := 0; for i := range tab { s += tab[i] }; return s }`, "f", fal
 	{"callee not translated", `func g(x byte) byte { return x }
 func f(x byte) byte { return g(x) }`, "f", false, "has not been translated"},
 	{"pointer", `func f(a *int) int { return *a }`, "f", false, "outside the translated subset"},
-	{"switch", `func f(a int) int { switch a { case 1: return 2 }; return a }`, "f", false, "unsupported statement"},
+	// switch
+	{"switch with return", `func f(a int) int { switch a { case 1: return 2 }; return a }`, "f", true,
+		"let sw_1 : BitVec 64 := a\n  if (sw_1 == 1#64) then\n    Go.Flow.done 2#64\n  else\n  Go.Flow.done a"},
+	{"switch, plain value", `func f(a byte) int { r := 0; switch a { case 1, 2: r = 5; case 3: r = 7; default: r = 9 }; return r }`, "f", true,
+		"let r : BitVec 64 := (if (sw_1 == 3#8) then 7#64 else r)\n  (if (!((sw_1 == 1#8) || (sw_1 == 2#8) || (sw_1 == 3#8))) then 9#64 else r)"},
+	{"switch, plain value, case list", `func f(a byte) int { r := 0; switch a { case 1, 2: r = 5; case 3: r = 7; default: r = 9 }; return r }`, "f", true,
+		"let r : BitVec 64 := (if ((sw_1 == 1#8) || (sw_1 == 2#8)) then 5#64 else r)"},
+	{"switch, result stays plain", `func f(a byte) int { r := 0; switch a { case 1: r = 5 }; return r }`, "f", true, "def f (a : BitVec 8) : BitVec 64 :="},
+	{"switch, fallthrough", `func f(a int) int { r := 0; switch a { default: r += 1; fallthrough; case 4: r += 2; fallthrough; case 3: r += 4; case 2: r += 8 }; return r }`, "f", true,
+		"(if ((!((sw_1 == 4#64) || (sw_1 == 3#64) || (sw_1 == 2#64))) || (sw_1 == 4#64) || (sw_1 == 3#64)) then (r + 4#64) else r)"},
+	{"switch, fallthrough ends the chain", `func f(a int) int { r := 0; switch a { default: r += 1; fallthrough; case 4: r += 2; fallthrough; case 3: r += 4; case 2: r += 8 }; return r }`, "f", true,
+		"(if (sw_1 == 2#64) then (r + 8#64) else r)"},
+	{"switch, default in the middle", `func f(a int) int { r := 0; switch a { case 1: r = 1; default: r = 2; fallthrough; case 5: r += 3 }; return r }`, "f", true,
+		"(if ((!((sw_1 == 1#64) || (sw_1 == 5#64))) || (sw_1 == 5#64)) then (r + 3#64) else r)"},
+	{"switch, tag evaluated once", `func f(a int) int { switch a { case 1: a = 2; fallthrough; case 2: a += 5 }; return a }`, "f", true,
+		"let sw_1 : BitVec 64 := a\n  let a : BitVec 64 := (if (sw_1 == 1#64) then 2#64 else a)\n  (if ((sw_1 == 1#64) || (sw_1 == 2#64)) then (a + 5#64) else a)"},
+	{"switch, empty clause", `func f(a int) int { r := 0; switch a { case 1: case 2: r = 3 }; return r }`, "f", true, "(if (sw_1 == 2#64) then 3#64 else r)"},
+	{"switch, empty clause falling through", `func f(a int) int { r := 0; switch a { case 1: fallthrough; case 2: r = 3 }; return r }`, "f", true,
+		"(if ((sw_1 == 1#64) || (sw_1 == 2#64)) then 3#64 else r)"},
+	{"switch, only default", `func f(a int) int { r := 0; switch a { default: r = 3 }; return r }`, "f", true, "(if true then 3#64 else r)"},
+	{"switch, panicking tag", `func f(xs []byte) int { switch xs[0] { case 1: return 2 }; return 0 }`, "f", true,
+		"if !(decide (0 < xs.length)) then Go.Flow.panic else\n  let sw_1 : BitVec 8 := (xs.getD 0 0#8)"},
+	{"switch, break at the end of a clause", `func f(a int) int { r := 0; switch a { case 1: r = 5; break; default: r = 9 }; return r }`, "f", true,
+		"(if (sw_1 == 1#64) then 5#64 else r)"},
+	{"switch, break inside a clause", `func f(xs []byte) int { r := 0; for len(xs) > 0 { switch xs[0] { case 1: if r > 3 { break }; r++ }; xs = xs[1:] }; return r }`, "f", false,
+		"inside a switch clause it leaves the switch, not the loop"},
+	{"switch, break in a clause is not a loop break", `func f(xs []byte) int { r := 0; for len(xs) > 0 { switch xs[0] { case 1: r++; break }; xs = xs[1:] }; return r }`, "f", true,
+		"Go.whileFuel (fun"},
+	{"switch without tag", `func f(a, b int) int { r := 0; switch { case a > 3: r = 1; case b > 3: r = 2; default: r = 3 }; return r }`, "f", true,
+		"(if (BitVec.slt 3#64 a) then 1#64 else (if (BitVec.slt 3#64 b) then 2#64 else 3#64))"},
+	{"switch without tag, returns", `func f(xs []byte, n int) int { switch { case n == 2 && xs[1] != 0: return 1; case n == 4 && xs[3] != 0: return 2 }; return 0 }`, "f", true,
+		"else\n  if !(!(n == 4#64) || (decide (3 < xs.length))) then Go.Flow.panic else\n  if ((n == 4#64) && ((xs.getD 3 0#8) != 0#8)) then"},
+	{"switch without tag, fallthrough", `func f(a int) int { r := 0; switch { case a > 3: r = 1; fallthrough; default: r += 3 }; return r }`, "f", false,
+		"fallthrough in a switch without tag"},
+	{"switch without tag, default first", `func f(a int) int { r := 0; switch { default: r = 3; case a > 3: r = 1 }; return r }`, "f", false, "the default clause must be the last one"},
+	{"switch without tag, two conditions", `func f(a int) int { r := 0; switch { case a > 3, a < 0: r = 1 }; return r }`, "f", false, "a single condition"},
+	{"switch, non-constant case", `func f(a, b int) int { r := 0; switch a { case b: r = 1 }; return r }`, "f", false, "only constant case values"},
+	{"switch on a string", `func f(s string) int { r := 0; switch s { case "a": r = 1 }; return r }`, "f", false, "only integer tags"},
+	{"switch with init", `func f(a int) int { r := 0; switch b := a + 1; b { case 1: r = 1 }; return r }`, "f", false, "switch with an init statement"},
+	{"type switch", `func f(a interface{}) int { switch a.(type) { case int: return 1 }; return 0 }`, "f", false, "outside the translated subset"},
+	// break
+	{"break in a condition loop", `func f(xs []byte) int { s := 0; for len(xs) > 0 { s += int(xs[0]); if len(xs) < 5 { break }; xs = xs[5:] }; return s }`, "f", true,
+		"if (BitVec.slt (BitVec.ofNat 64 xs.length) 5#64) then\n        Go.Flow.run (true, (xs, s))\n      else"},
+	{"break in a condition loop, loop", `func f(xs []byte) int { s := 0; for len(xs) > 0 { s += int(xs[0]); if len(xs) < 5 { break }; xs = xs[5:] }; return s }`, "f", true,
+		"Go.Flow.run (false, (xs, s))) xs.length (xs, s)) (fun (st_1 : List (BitVec 8) × BitVec 64) =>"},
+	{"break in a condition loop, combinator", `func f(xs []byte) int { s := 0; for len(xs) > 0 { s += int(xs[0]); if len(xs) < 5 { break }; xs = xs[5:] }; return s }`, "f", true,
+		"Go.Flow.bind (Go.whileFuelB (fun (st_1 : List (BitVec 8) × BitVec 64) =>"},
+	{"break in a range loop", `func f(xs []byte) int { s := 0; for _, v := range xs { s += int(v); break }; return s }`, "f", true,
+		"Go.Flow.bind (Go.forInB xs s (fun (s : BitVec 64) (v : BitVec 8) =>\n      let s : BitVec 64 := (s + (BitVec.setWidth 64 v))\n      Go.Flow.run (true, s)))"},
+	{"break in a three-clause loop", `func f(n int) int { s := 0; for i := 0; i < n; i++ { if i == 7 { s++; break }; s += i }; return s }`, "f", true,
+		"Go.Flow.run (false, s))) (fun (s : BitVec 64) =>"},
+	{"break after a nested block", `func f(xs []byte) int { s := 0; for _, v := range xs { if v == 0 { if s > 3 { break }; s = 9; break }; s++ }; return s }`, "f", true,
+		"let s : BitVec 64 := 9#64\n        Go.Flow.run (true, s)"},
+	{"break in the inner loop only", `func f(xs []byte) int { s := 0; for _, v := range xs { for _, w := range xs { if w == v { break }; s++ } }; return s }`, "f", true,
+		"Go.Flow.bind (Go.forIn xs s (fun (s : BitVec 64) (v : BitVec 8) =>\n      Go.Flow.bind (Go.forInB xs s (fun (s : BitVec 64) (w : BitVec 8) =>"},
+	{"break not in tail position", `func f(xs []byte) int { s := 0; for _, v := range xs { if v == 0 { if s > 3 { break }; s = 9 }; s++ }; return s }`, "f", false,
+		"inside a conditional whose end can be reached"},
+	{"break in else", `func f(xs []byte) int { s := 0; for _, v := range xs { if v == 0 { s++ } else { break } }; return s }`, "f", false, "inside a conditional whose end can be reached"},
+	{"statement after break", `func f(xs []byte) int { s := 0; for _, v := range xs { s += int(v); break; s++ }; return s }`, "f", false, "statement after break"},
+	{"labeled break", `func f(xs []byte) int { s := 0; L: for _, v := range xs { s += int(v); break L }; return s }`, "f", false, "unsupported declaration of L"},
+	// &T{ErrX, off}
+	{"error with offset", `import "errors"
+var ErrX = errors.New("x")
+type E struct { err error; Off int }
+func (e *E) Error() string { return "e" }
+func f(a int) (int, error) { if a < 0 { return 0, &E{ErrX, a + 1} }; return a, nil }`, "f", true,
+		"(0#64, (some (\"ErrX\", (a + 1#64))))"},
+	{"error with offset, nil", `import "errors"
+var ErrX = errors.New("x")
+type E struct { err error; Off int }
+func (e *E) Error() string { return "e" }
+func f(a int) (int, error) { if a < 0 { return 0, &E{ErrX, a + 1} }; return a, nil }`, "f", true,
+		"(a, (none : Option (String × BitVec 64)))"},
+	{"error with offset, keyed", `import "errors"
+var ErrX = errors.New("x")
+type E struct { Off int; err error }
+func (e E) Error() string { return "e" }
+func f(a int) (int, error) { if a < 0 { return 0, &E{err: ErrX, Off: a} }; return a, nil }`, "f", true,
+		"def f (a : BitVec 64) : BitVec 64 × Option (String × BitVec 64) :=\n  if (BitVec.slt a 0#64) then\n    (0#64, (some (\"ErrX\", a)))"},
+	{"error with offset, mixed with a plain error", `import "errors"
+var ErrX = errors.New("x")
+type E struct { err error; Off int }
+func (e *E) Error() string { return "e" }
+func f(a int) (int, error) { if a < 0 { return 0, &E{ErrX, a} }; return a, ErrX }`, "f", false, "also builds &T{ErrX, off}"},
+	{"error with offset, not an error type", `import "errors"
+var ErrX = errors.New("x")
+type E struct { err error; Off int }
+func f(a int) (int, *E) { return a, &E{ErrX, a} }`, "f", false, "outside the translated subset"},
+	{"error with offset, wrapped error not a variable", `import "errors"
+var ErrX = errors.New("x")
+type E struct { err error; Off int }
+func (e *E) Error() string { return "e" }
+func f(a int) (int, error) { return a, &E{errors.New("y"), a} }`, "f", false, "is only supported in"},
+	{"address of a variable", `func f(a int) bool { return &a == nil }`, "f", false, "is only supported in"},
+	// output buffer with the element type of another parameter
+	{"output buffer that may overlap, assumed disjoint", `func f(dst []byte, src []byte) int { for i := range src { dst[i] = src[i] }; return 0 }`, "f!disjoint", true,
+		"ASSUMPTION (not checked here): the array of `dst` does not overlap the arrays of the other parameters"},
 }
 
 func TestLoopTranslator(t *testing.T) {
